@@ -39,9 +39,14 @@
 /*============================================================================*/
 
 void eb_pck(eb_t r, const eb_t p) {
-	/* z3 = y1/x1. */
-	fb_inv(r->z, p->x);
-	fb_mul(r->z, r->z, p->y);
+	if (fb_is_zero(p->x)) {
+		/* The point (0, sqrt(b)) has compression bit 0 (ANSI X9.62). */
+		fb_zero(r->z);
+	} else {
+		/* z3 = y1/x1. */
+		fb_inv(r->z, p->x);
+		fb_mul(r->z, r->z, p->y);
+	}
 	/* x3 = x1. */
 	fb_copy(r->x, p->x);
 	/* y3 = b(y1/x1). */
@@ -58,6 +63,18 @@ int eb_upk(eb_t r, const eb_t p) {
 
 	fb_null(t0);
 	fb_null(t1);
+
+	if (fb_is_zero(p->x)) {
+		/* The only point with x1 = 0 is (0, sqrt(b)), with bit 0. */
+		if (fb_get_bit(p->y, 0) != 0) {
+			return 0;
+		}
+		fb_srt(r->y, eb_curve_get_b());
+		fb_zero(r->x);
+		fb_set_dig(r->z, 1);
+		r->coord = BASIC;
+		return 1;
+	}
 
 	RLC_TRY {
 		fb_new(t0);
